@@ -15,12 +15,7 @@ targets   := "-" (none) | "=" c1,c2,…      accrual := "-" | <interval>,<start>
 namespace Knut.Driver
 open Knut Knut.Wire
 
-structure RawBooking where
-  credit : Account
-  debit : Account
-  quantity : Rat
-  commodity : Commodity
-  deriving Repr
+abbrev RawBooking := Knut.Booking
 
 structure RawAccrual where
   interval : String
@@ -98,7 +93,6 @@ def parseJournal (s : String) : Option (List RawDirective) :=
 
 /-- a transaction without accrual annotation becomes one model transaction (`transaction.Create`) -/
 def plainTx (date : Int) (desc : String) (targets : Option (List Commodity)) (bks : List RawBooking) : Transaction :=
-  { date := date, description := desc, targets := targets,
-    postings := bks.flatMap (fun b => postingBuild b.credit b.debit b.commodity b.quantity) }
+  Transaction.ofBookings date desc targets bks
 
 end Knut.Driver
